@@ -244,6 +244,7 @@ type Spelling struct {
 	CRLF       bool   `json:"crlf"`
 	FinalNL    bool   `json:"final_nl"`
 	LeadBlank  bool   `json:"lead_blank"`
+	NoSpace    bool   `json:"no_space_after_bullet,omitempty"` // "-name" instead of "- name" (the parser only trims an optional space)
 }
 
 var plainSpelling = Spelling{IndentChar: ' ', Unit: 2, Bullets: "-", FinalNL: true}
@@ -255,14 +256,18 @@ func spell(f []*Tree, s Spelling) []byte {
 	rec = func(t *Tree, depth int) {
 		b := s.Bullets[i%len(s.Bullets)]
 		i++
+		gap := " "
+		if s.NoSpace {
+			gap = ""
+		}
 		if s.Sharp {
 			if depth == 0 {
-				rows = append(rows, "# "+t.Name)
+				rows = append(rows, "#"+gap+t.Name)
 			} else {
-				rows = append(rows, strings.Repeat(string(s.IndentChar), (depth-1)*s.Unit)+string(b)+" "+t.Name)
+				rows = append(rows, strings.Repeat(string(s.IndentChar), (depth-1)*s.Unit)+string(b)+gap+t.Name)
 			}
 		} else {
-			rows = append(rows, strings.Repeat(string(s.IndentChar), depth*s.Unit)+string(b)+" "+t.Name)
+			rows = append(rows, strings.Repeat(string(s.IndentChar), depth*s.Unit)+string(b)+gap+t.Name)
 		}
 		for _, k := range t.Kids {
 			rec(k, depth+1)
@@ -305,6 +310,9 @@ func representable(f []*Tree, s Spelling) bool {
 			if strings.HasPrefix(n, " ") || strings.HasSuffix(n, " ") || strings.HasPrefix(n, "#") {
 				ok = false
 			}
+		}
+		if s.NoSpace && strings.HasPrefix(n, " ") {
+			ok = false
 		}
 		if isBlankGo(n) && !(s.Sharp && depth == 0) {
 			// "- " + blank name is fine for the list parser unless the whole row is blank (never: it has a bullet)
